@@ -21,7 +21,7 @@ EXPLANATION = (
     " (R7) sibling guard agreement: the per-type copies of the FORMAT value decoders (Int8/Int16/Int32/Float, vector and scalar) reach their `push(None)` sites under the same edge-dominance guard signature."
     " (R8) the async BCF writer clears its record buffer before the encoder fills it; (R9) the dictionary of strings only grows: a length-changing Vec operation on StringMap.entries is a resize on one edge only of a comparison with its own length (or with a max(len, ..) length); (R10) the VCF header writer, whose text the BCF reader numbers the dictionary from, and StringMaps::try_from(&Header), which the BCF writer numbers it with, visit INFO / FILTER / FORMAT in the same order."
     " (R11) sibling shape: the end-of-vector padding loop (0..max_len - len) of every typed sample writer is enclosed by the per-sample loop only (genuine defect F43, repaired: the genotype writer padded inside the allele loop)."
-    " (R12) genotypes keep phasing: every allele code returned by the two allele encoders, the missing allele included, lies behind a test of the phasing argument (genuine defect F45, repaired). (R13) implicit first-allele phasing visits every remaining allele. (R14) array-typed lazy INFO readers build Value::Array only (F56, repaired). (R15) the int8 allele code is computed with checked arithmetic (F57, repaired). (R16) the sample-side Values::len of the lazy arrays counts through the padding-dropping iterator (F60, repaired).")
+    " (R12) genotypes keep phasing: every allele code returned by the two allele encoders, the missing allele included, lies behind a test of the phasing argument (genuine defect F45, repaired). (R13) implicit first-allele phasing visits every remaining allele. (R14) array-typed lazy INFO readers build Value::Array only (F56, repaired). (R15) the int8 allele code is computed with checked arithmetic (F57, repaired). (R16) the sample-side Values::len of the lazy arrays counts through the padding-dropping iterator (F60, repaired). (R17) every per-sample value writer accepts a missing sample value (F61, repaired).")
 ASSUMPTIONS = ["interval reasoning is dominance-based; per-sample padding and vector length logic are value-level"]
 NOT_DECIDED = ["full record equality, per-sample padding of unequal-length vectors, float bit patterns beyond the reserved-NaN constants"]
 
@@ -305,6 +305,38 @@ def run(ctx):
                           "%s takes the raw slice length: it counts the end-of-vector padding that iter() drops, the encoder adds no padding for "
                           "this sample and the copied series is short" % k16, f16.loc())
     ctx.floor("C10.R16", "sample-side Values::len impls of the lazy BCF arrays", n16, 4)
+
+
+    ctx.rule("C10.R17", "A7 sibling writers: every per-sample value writer of the BCF encoder (write_<type>_values, sixteen siblings) accepts a "
+                        "sample whose value is MISSING (None): from the None edge of its match on the element a success exit is reachable — "
+                        "the genotype writer alone refused it (genuine defect F61, repaired: `GT .` for one sample made VCF -> BCF fail)")
+    n17 = 0
+    for k17, f17 in sorted(fb.fns.items()):
+        if not f17.blocks or not re.search(r"^noodles_bcf::record::codec::encoder::samples::values::write_\w+_values$", k17):
+            continue
+        okx = set(C.success_exit_blocks(f17))
+        for b17, blk in enumerate(f17.blocks):
+            t = blk["t"]
+            if t[0] != "sw" or blk.get("cu"):
+                continue
+            cond = C.switch_condition(f17, b17)
+            if not cond or cond[0] != "discr":
+                continue
+            pl = cond[1]
+            ty = f17.locals[pl[0]] or ""
+            if not (ty.startswith("&core::option::Option<noodles_vcf::variant::record::samples::series::value::Value") and pl[1] == ["*"]):
+                continue
+            vals = dict((v, tg) for v, tg in t[2])
+            none_t = vals.get(0, t[3])
+            n17 += 1
+            ctx.saw_fn(f17)
+            if okx & C.reachable(f17, none_t):
+                ctx.ok("C10.R17", k17, "a missing sample value is written (the None edge reaches a success exit)", f17.loc(b17))
+            else:
+                ctx.violation("C10.R17", "C10.R17/missing-sample-value-refused/" + k17,
+                              "%s answers a sample whose value is missing with an error: a record in which one sample has no value for this "
+                              "key (`.`) cannot be written as BCF, although its sibling writers store the missing marker" % k17, f17.loc(b17))
+    ctx.floor("C10.R17", "per-sample value writers with a match on the element's presence", n17, 14)
 
     ctx.rule("C10.R4", "string-map lookups on decode are error exits on a missing index")
     n = 0
